@@ -4,6 +4,11 @@
      primfeed  <tag> <hex> <c1,c2,..|k*>  -> <RC> <total consumed> <contents hex | ->
      chainfeed <t1,t2,..> <hex> <c1,..|k*> -> <RC> <total consumed> step=<n> left=<z> context=<z>
                                               (ctx->step, ctx->left, ctx->context of the C after the last call)
+     entfeed   <hex> <c1,..|k*>           -> <RC> <total consumed> <string decoded so far, hex>     (Rt/ResumeX.v entref_step)
+     entpfx    <hex>                      -> the first call on every prefix of 0..n octets: <M|O|F><consumed>,...
+     skipfeed  <full 0|1> <hex> <c1,..|k*> -> <RC> <total consumed>                                  (skip_step)
+     skipsfeed <full> <bits 01..> <hex> <c1,..|k*> -> <RC> <total consumed> <unread bits | ->        (skips_step)
+     skipspfx  <full> <bits> <hex>        -> the first call on every prefix: <M|O|F><consumed>,...
    Type syntax as in drv_rt.ml (the parser below is a copy: each area has its own
    extracted copy of the type algebra). *)
 open Model
@@ -117,4 +122,26 @@ let dispatch cmd args =
       let ((c, n), ctx) = feed0 (chain_step tl) chain_ctx0 (chunks_of (bytes_of_hex h) sched) in
       Some (Printf.sprintf "%s %d step=%d left=%s context=%s" (code_s c) (int_of_nat n) (int_of_nat ctx.cstep)
               (string_of_cz ctx.cleft) (string_of_cz ctx.cctx))
+  | "entfeed", [h; sched] ->
+      let ((c, n), acc) = feed0 entref_step [] (chunks_of (bytes_of_hex h) sched) in
+      Some (Printf.sprintf "%s %d %s" (code_s c) (int_of_nat n) (if acc = [] then "-" else hex_of_bytes acc))
+  | "entpfx", [h] ->
+      let bs = bytes_of_hex h in
+      let n = List.length bs in
+      let one j = let ((c, k), _) = entref_step [] (take j bs) in Printf.sprintf "%c%d" (code_s c).[0] (int_of_nat k) in
+      Some (String.concat "," (List.init (n + 1) one))
+  | "skipfeed", [full; h; sched] ->
+      let ((c, n), _) = feed0 (skip_step (full = "1")) () (chunks_of (bytes_of_hex h) sched) in
+      Some (Printf.sprintf "%s %d" (code_s c) (int_of_nat n))
+  | "skipsfeed", [full; bits; h; sched] ->
+      let bl = List.init (String.length bits) (fun i -> bits.[i] = '1') in
+      let ((c, n), left) = feed0 (skips_step (full = "1")) bl (chunks_of (bytes_of_hex h) sched) in
+      Some (Printf.sprintf "%s %d %s" (code_s c) (int_of_nat n)
+              (if left = [] then "-" else String.concat "" (List.map (fun b -> if b then "1" else "0") left)))
+  | "skipspfx", [full; bits; h] ->
+      let bl = List.init (String.length bits) (fun i -> bits.[i] = '1') in
+      let bs = bytes_of_hex h in
+      let n = List.length bs in
+      let one j = let ((c, k), _) = skips_step (full = "1") bl (take j bs) in Printf.sprintf "%c%d" (code_s c).[0] (int_of_nat k) in
+      Some (String.concat "," (List.init (n + 1) one))
   | _ -> None
